@@ -1,5 +1,5 @@
 #!/bin/bash
-# seedbatch.sh C01 C03 ...  : evaluates $SEED_PREFIX<ID>/patch{1,2}.diff (default /tmp/seed-), results in $RESULTS
+# seedbatch.sh C01 C03 ...  (CHECKS=own runs only the check of the change's own property; default auto = all): evaluates $SEED_PREFIX<ID>/patch{1,2}.diff (default /tmp/seed-), results in $RESULTS
 export MUT_DIR="${MUT_DIR:-/tmp/mut}"
 SEED_PREFIX="${SEED_PREFIX:-/tmp/seed-}"
 RESULTS="${RESULTS:-/tmp/mut/results}"
@@ -13,7 +13,7 @@ for id in "$@"; do
     demo=$SEED_PREFIX$id/demo$n.rs
     [ -f "$demo" ] || demo=$SEED_PREFIX$id/demo$n.sh
     [ -f "$demo" ] || demo=""
-    if python3 /verif/tools/seedrun.py "$p" "$demo" auto > "$out.tmp" 2>&1; then mv "$out.tmp" "$out"; else mv "$out.tmp" "$out.err"; fi
+    if c="${CHECKS:-auto}"; [ "$c" = own ] && c=$id; python3 /verif/tools/seedrun.py "$p" "$demo" "$c" > "$out.tmp" 2>&1; then mv "$out.tmp" "$out"; else mv "$out.tmp" "$out.err"; fi
   done
 done
 echo BATCH-DONE
